@@ -7,6 +7,7 @@ from ..absint import TOP, Const, ExtRef, FuncRef, Interp, ListOf, Obj, Tup
 from ..domains.affine import A, AffineDomain, Poly, mkA
 from ..effects import EffectAnalysis
 from ..repo import calls_in, dotted, norm_src, walk_no_nested
+from ..match import Matcher, src as msrc
 from .common import kwarg, need_funcs
 from .C03 import local_assignments
 
@@ -68,7 +69,9 @@ def translation_clause(model, rep, funcs):
                clause="translation", stmt=f"def binning translation ({a.split('::')[1]})")
         rep.ob("A", a, "the binned loader's scale is scale * binsize", sc.equals(A(s.num * b.num)), f"new scale {sc!r}", node=f.node, fn=f, clause="translation",
                stmt=f"def binning scale ({a.split('::')[1]})")
-        okm = seen.get("tr_recv") in ("self.molecules", "self._molecules") and seen.get("mol") == "molecules"
+        MB = Matcher(f)
+        okm = seen.get("tr_recv") in ("self.molecules", "self._molecules") and \
+            MB.all_of(["$mol = self.molecules.translate($$t)", "$out = self.replace(molecules=$mol, ...)", "return $out"])[0]
         rep.ob("SLOT", a, "the translated copy of this loader's molecules is what the binned loader gets", okm, f"translate on {seen.get('tr_recv')}, replace(molecules={seen.get('mol')})",
                node=f.node, fn=f, clause="translation", stmt=f"def binning molecules ({a.split('::')[1]})")
         forms[a] = (tuple(repr(c) for c in comps), repr(sc))
@@ -120,9 +123,11 @@ def bin_image_clause(model, rep, funcs):
     rep.ob("A", f.anchor, "bin_image drops the incomplete remainder (keeps b*(s//b) voxels) and reshapes every axis to (s//b, b)", ok, det, node=f.node, fn=f,
            clause="block sum", stmt="def bin_image reshape")
     s = norm_src(f.node)
-    ax = [n for n in walk_no_nested(f.node) if isinstance(n, ast.Assign) and norm_src(n.targets[0]) == "axis"]
-    ok2 = bool(ax) and norm_src(ax[0].value) in ("tuple((i * 2 + 1 for i in range(img.ndim)))", "tuple((2 * i + 1 for i in range(img.ndim)))") and \
-        "img_reshaped.sum(axis=axis)" in s and "img[slices].reshape(shapes)" in s
+    MI = Matcher(f)
+    bi: dict = {}
+    ok2 = MI.all_of(["$sl.append(slice(None, $$stop))", "$sh.extend([$$q, binsize])", "$r = img[tuple($sl)].reshape(tuple($sh))"], bi)[0] and \
+        (MI.has("return $r.sum(axis=tuple($i * 2 + 1 for $i in range(img.ndim)))", bi) or MI.has("return $r.sum(axis=tuple(2 * $i + 1 for $i in range(img.ndim)))", bi))
+    ax = []
     rep.ob("A", f.anchor, "the block sum reduces exactly the within-block axes 1, 3, 5 with sum()", ok2, norm_src(ax[0].value) if ax else "", node=f.node, fn=f,
            clause="block sum", stmt="def bin_image sum")
 
@@ -185,7 +190,10 @@ def purity_clause(model, rep, funcs):
                node=(effs[0].node if effs else f.node), fn=(effs[0].fn if effs else f), clause="purity", stmt=(None if effs else f"def binning pure ({a})"))
         # the binned image(s) replace the image field(s) of the result
         s = norm_src(f.node)
-        okimg = ("out._image = binned_image" in s) or ("out._images = _images" in s)
+        MB = Matcher(f)
+        okimg = MB.all_of(["$img = _utils.bin_image(self.image, binsize=binsize)", "$out = self.replace(...)", "$out._image = $img", "return $out"])[0] or \
+            MB.all_of(["for $id, $image in self._images.items():\n    ...", "$b = _utils.bin_image($image, binsize=binsize)", "$imgs[$id] = $b",
+                       "$out = self.replace(...)", "$out._images = $imgs", "return $out"])[0]
         rep.ob("SLOT", a, "the result's image is the block-summed image (bin_image of this loader's image with the same binsize)", okimg and "bin_image(" in s and "binsize=binsize" in s,
                "", node=f.node, fn=f, clause="purity", stmt=f"def binning image ({a})")
 
